@@ -107,6 +107,15 @@ func (v *Voter) Verify(proposal *hotstuff.ProposeMsg) (err error) {
 	if err := v.auth.VerifyAnyQC(proposal); err != nil {
 		return err
 	}
+	// the block must directly extend the block certified by its QC
+	// (the QC's view is the certified block's view, see VerifyQuorumCert).
+	qc := proposal.Block.QuorumCert()
+	if proposal.Block.Parent() != qc.BlockHash() {
+		return fmt.Errorf("block's parent is not the block certified by its quorum certificate")
+	}
+	if blockView <= qc.View() {
+		return fmt.Errorf("block view %d is not higher than the view %d of the block it extends", blockView, qc.View())
+	}
 	// ensure the block came from the expected leader.
 	leaderID := v.leaderRotation.GetLeader(blockView)
 	if proposal.ID != leaderID {
